@@ -325,6 +325,7 @@ def scenario_extrema(ch, tr, st):
     cols = 1 + ch.draw(2, "cols")
     n = 1 + ch.draw(5, "ncases")
     with_x = ch.flip(2, 3, "with_x")
+    mixed_x = ch.flip(1, 3, "mixed_x")  # some cases come with abscissae, some without
     with_casenum = ch.flip(1, 2, "with_casenum")
     list_labels = ch.flip(1, 3, "list_labels")
     nan_ok = ch.flip(1, 3, "nan_on")
@@ -354,8 +355,10 @@ def scenario_extrema(ch, tr, st):
                     vals[r, :] = np.nan
                     st.fault("nan_cells")
         xs = None
-        if with_x:
+        if (ch.flip(1, 2, "x_this_case") if mixed_x else with_x):
             xs = np.array([[float(10 * j + c + 100 * r) for c in range(cols)] for r in range(rows)])
+        if mixed_x:
+            st.fault("mixed_abscissa")
         if list_labels:
             maxcase = [f"c{j}r{r}" for r in range(rows)]
             mincase = [f"c{j}r{r}m" for r in range(rows)] if cols == 2 and ch.flip(1, 2, "mincase_given") else None
@@ -367,7 +370,7 @@ def scenario_extrema(ch, tr, st):
         with _Sut(f"cla.extrema call {j}"):
             cla.extrema(cur, mm, maxcase, mincase, j if with_casenum else None)
         hist.append((vals, xs, maxcase, mincase))
-        _check_extrema_fold(cur, hist, rows, cols, with_x, with_casenum, j)
+        _check_extrema_fold(cur, hist, rows, cols, with_x or mixed_x, with_casenum, j)
         tr.ev("fold", j, vals, cur.ext)
     st.rendered["ops"] = ops
     st.steps = n
@@ -390,6 +393,8 @@ def _check_extrema_fold(cur, hist, rows, cols, with_x, with_casenum, j, where=No
     where = where or f"cla.extrema[{cols}col]"
     if cur.ext is None or np.shape(cur.ext) != (rows, 2):
         raise Violation("extrema_shape", where, got=str(np.shape(cur.ext)))
+    if cur.ext_x is not None and np.shape(cur.ext_x) != (rows, 2):
+        raise Violation("extrema_abscissa", f"{where}.ext_x", got_shape=str(np.shape(cur.ext_x)), expected_shape=str((rows, 2)), history=[h_[0].tolist() for h_ in hist], xs=[("none" if h_[1] is None else h_[1].tolist()) for h_ in hist])
     for r in range(rows):
         # candidates: (value, x, label) per column semantics
         if cols == 2:
@@ -422,8 +427,17 @@ def _check_extrema_fold(cur, hist, rows, cols, with_x, with_casenum, j, where=No
             if label not in [c[2] for c in att]:
                 raise Violation("extrema_case_label", f"{where}.{name}case", row=r, got=label, acceptable=[c[2] for c in att], history=[repr(float(c[0])) for c in cands])
             if with_x:
-                if gx is None or not any(gx == c[1] for c in att if c[2] == label):
-                    raise Violation("extrema_abscissa", f"{where}.ext_x", row=r, col=col, got=repr(gx), acceptable=[c[1] for c in att if c[2] == label])
+                # the abscissa of an attaining case with the reported label; a case that
+                # came without abscissae has none (NaN, or no table at all)
+                okx = [c[1] for c in att if c[2] == label]
+                good = False
+                for ox in okx:
+                    if ox is None:
+                        good = good or gx is None or np.isnan(gx)
+                    else:
+                        good = good or (gx is not None and gx == ox)
+                if not good:
+                    raise Violation("extrema_abscissa", f"{where}.ext_x", row=r, col=col, got=repr(gx), acceptable=[("nan" if o is None else o) for o in okx], history=[repr(float(c[0])) for c in cands], xs=[("none" if c[1] is None else c[1]) for c in cands])
     if with_casenum:
         for jj, h in enumerate(hist):
             exp_mx = h[0][:, 0]
@@ -431,8 +445,10 @@ def _check_extrema_fold(cur, hist, rows, cols, with_x, with_casenum, j, where=No
             _need(_close(cur.mx[:, jj], exp_mx, 0.0, 1.0), "extrema_percase", where + ".mx", case=jj)
             _need(_close(cur.mn[:, jj], exp_mn, 0.0, 1.0), "extrema_percase", where + ".mn", case=jj)
             if with_x:
-                _need(_close(cur.mx_x[:, jj], h[1][:, 0], 0.0, 1.0), "extrema_percase", where + ".mx_x", case=jj)
-                _need(_close(cur.mn_x[:, jj], h[1][:, -1], 0.0, 1.0), "extrema_percase", where + ".mn_x", case=jj)
+                ex0 = np.full(rows, np.nan) if h[1] is None else h[1][:, 0]
+                ex1 = np.full(rows, np.nan) if h[1] is None else h[1][:, -1]
+                _need(_close(cur.mx_x[:, jj], ex0, 0.0, 1.0), "extrema_percase", where + ".mx_x", case=jj)
+                _need(_close(cur.mn_x[:, jj], ex1, 0.0, 1.0), "extrema_percase", where + ".mn_x", case=jj)
 
 
 
@@ -449,6 +465,7 @@ def scenario_external(ch, tr, st):
     cols = 1 + ch.draw(2, "cols")
     nev = 1 + ch.draw(5, "nevents")
     with_x = ch.flip(1, 2, "with_x")
+    mixed_x = ch.flip(1, 3, "mixed_x")
     list_labels = ch.flip(1, 3, "list_labels")
     nan_ok = ch.flip(1, 4, "nan_on")
     doappend = [2, 0, 1, 3][ch.draw(4, "doappend")]
@@ -484,8 +501,10 @@ def scenario_external(ch, tr, st):
                         vals[r, :] = np.nan
                         st.fault("nan_cells")
             xs = None
-            if with_x:
+            if (ch.flip(1, 2, "x_this_event") if mixed_x else with_x):
                 xs = np.array([[float(10 * e + k + 100 * r) for k in range(cols)] for r in range(rows)])
+            if mixed_x:
+                st.fault("mixed_abscissa")
             if list_labels:
                 maxcase = [f"E{e}r{r}" for r in range(rows)]
                 mincase = [f"E{e}r{r}m" for r in range(rows)] if cols == 2 and ch.flip(1, 2, "mincase_given") else None
@@ -493,7 +512,7 @@ def scenario_external(ch, tr, st):
                 maxcase = f"E{e}case"
                 mincase = f"E{e}casem" if cols == 2 and ch.flip(1, 3, "mincase_given") else None
             with _Sut("DR_Results.add_maxmin"):
-                res.add_maxmin(cat, vals.copy(), maxcase, mincase, None if xs is None else xs.copy(), domain="time" if with_x else None)
+                res.add_maxmin(cat, vals.copy(), maxcase, mincase, None if xs is None else xs.copy(), domain="time" if xs is not None else None)
             low_max = [_lbl(maxcase, r) for r in range(rows)]
             low_min = [_lbl(mincase if mincase is not None else maxcase, r) for r in range(rows)]
             lab = {0: lambda l: name, 2: lambda l: name, 1: lambda l: f"{name},{l}", 3: lambda l: l}[doappend]
@@ -513,7 +532,7 @@ def scenario_external(ch, tr, st):
         x = tree["extreme"][cat]
         if list(x.cases) != [f"E{e}" for e in range(nev)]:
             raise Violation("envelope_cases_wrong", f"form_extreme[external]:{cat}.cases", got=list(x.cases))
-        _check_extrema_fold(x, h, rows, cols, with_x, True, nev - 1, where=f"form_extreme[external,{cols}col]")
+        _check_extrema_fold(x, h, rows, cols, with_x or mixed_x, True, nev - 1, where=f"form_extreme[external,{cols}col]")
         tr.ev("ext", cat, x.ext)
     st.steps = nev * ncat + nform
     st.nontrivial = nev >= 2
@@ -1514,6 +1533,6 @@ ASSUMPTIONS = [
     "sampling of histories: a clean batch is evidence, not proof",
 ]
 EXPECTED_FAULTS = [
-    "psd_domain", "clock_jump_backwards", "clock_jump_forwards", "external_maxmin", "nan_cells", "ties", "ties_quantised", "one_column_ext", "label_mismatch", "j_out_of_order", "interleaved_events", "view_drfunc",
+    "psd_domain", "clock_jump_backwards", "clock_jump_forwards", "external_maxmin", "mixed_abscissa", "nan_cells", "ties", "ties_quantised", "one_column_ext", "label_mismatch", "j_out_of_order", "interleaved_events", "view_drfunc",
     "cache_reuse", "cache_reuse_repeat_uf", "stale_extreme_rebuild", "shared_DR_Event", "envelope_multi_event", "split_merge", "calc_ext",
 ]
